@@ -18,8 +18,15 @@ ONE_SKEL = ('IFT', 'LOOP1', 'FUNC', 'EVAL')
 TWO_SKEL = ('IFELSE_T', 'IFELSE_F', 'TRY')
 
 
+LEAVES_WIT = LEAVES_FULL + ('WE', 'WP', 'WRET', 'SPEND', 'DROP')
+
+
 def _grammar(name):
-    return (LEAVES_FULL, ONE_FULL, TWO_FULL) if name == 'full' else (LEAVES_SKEL, ONE_SKEL, TWO_SKEL)
+    if name == 'full':
+        return (LEAVES_FULL, ONE_FULL, TWO_FULL)
+    if name == 'wit':      # adversarial witness family: full grammar + cache writes, call-budget spending, stack drop
+        return (LEAVES_WIT, ONE_FULL, TWO_FULL)
+    return (LEAVES_SKEL, ONE_SKEL, TWO_SKEL)
 
 
 @functools.lru_cache(maxsize=None)
@@ -159,6 +166,18 @@ class Render:
             return self.marker() + op('WRITE_CACHE') + KEY_V + b'\x01'
         if k == 'GETV':
             return op('READ_CACHE') + KEY_V
+        if k == 'WE':
+            return self.marker() + op('WRITE_CACHE') + b'\x01E\x01'
+        if k == 'WP':
+            return self.marker() + op('POP0')
+        if k == 'WRET':
+            return op('TRUE') + op('WRITE_CACHE') + b'\x08returned\x01'
+        if k == 'SPEND':
+            return op('DEF') + b'\x05' + blk(b'') + op('CALL') + b'\x05'
+        if k == 'DROP':
+            return op('POP0')
+        if k == 'VERIFYW':
+            return op('VERIFY')
         if k == 'IFT':
             return op('TRUE') + op('IF') + blk(self.prog(s[1]))
         if k == 'IFF':
